@@ -1343,6 +1343,9 @@ impl TensorStore {
             }
         }
 
+        // Table rows live in the relational slab, which is not reachable through key scans
+        self.router.relations.restore_from(&new_router.relations);
+
         Ok(())
     }
 
